@@ -934,6 +934,11 @@ def _decoder_witnesses(V):
         # a class body that uses __class__ inside a function with a local __class__: CPython lists the name in both tables, the operand's position decides
         ("one name that is both a cell and a free variable", [("LOAD_CLOSURE", 0), ("LOAD_DEREF", 1), ("LOAD_DEREF", 0), ("LOAD_DEREF", 2), ("RETURN_VALUE", 0)], (), (), ("__class__", "x"), ("__class__",), ()),
         ("no instructions at all, tables that are not empty", [], ("a",), ("v",), (), ("c",), (1, "s")),
+        # entries no instruction uses at the SAME index of two tables, both out of first-use order
+        ("unreferenced entries at index 0 of the names and of the constants", [("LOAD_NAME", 1), ("LOAD_CONST", 1), ("RETURN_VALUE", 0)], ("n0", "a"), (), (), (), ("k0", 1)),
+        # a function with a docstring and three parameters: the docstring and the parameters count as met, nothing else does
+        ("a function with a docstring, three parameters, a constant no instruction uses", [("LOAD_CONST", 2), ("LOAD_FAST", 3), ("LOAD_FAST", 1), ("RETURN_VALUE", 0)], (), ("p0", "p1", "p2", "x"), (), (), ("doc", 7, 5),
+         ("doc", ("p0", "p1", "p2"))),
         ("two cells and one free variable", [("LOAD_DEREF", 2), ("LOAD_DEREF", 1), ("LOAD_DEREF", 0), ("RETURN_VALUE", 0)], (), (), ("f0",), ("c0", "c1"), ()),
         ("tables met out of order, entries never met", [("LOAD_NAME", 1), ("LOAD_CONST", 2), ("LOAD_NAME", 0), ("LOAD_CONST", 0), ("LOAD_FAST", 1), ("LOAD_NAME", 1), ("RETURN_VALUE", 0)],
          ("a", "b", "never"), ("v0", "v1"), (), (), (None, 1.5, "s")),
@@ -953,7 +958,7 @@ def _decoder_witnesses(V):
          ("a", "b"), (), (), (), ()),
     ]
     WV = []
-    for wname, units, names, varnames, freevars, cellvars, consts in W:
+    for wname, units, names, varnames, freevars, cellvars, consts, *fn_spec in W:
         if any(op not in om for op, _a in units):
             continue
         # the jump operands of the last witness: POP_JUMP_IF_FALSE -> offset 6 (BUILD_TUPLE), JUMP_FORWARD -> offset 12 (POP_TOP), JUMP_ABSOLUTE (behind a zero prefix) -> offset 0
@@ -965,7 +970,7 @@ def _decoder_witnesses(V):
                 a = a[1] // scale
             fixed.append((op, a))
         code = bytes(x for op, a in fixed for x in (om[op], a))
-        WV.append((wname, code, names, varnames, freevars, cellvars, consts))
+        WV.append((wname, code, names, varnames, freevars, cellvars, consts) + tuple(fn_spec))
     return WV
 
 
@@ -974,7 +979,8 @@ def _decode_bad(an, g, V, WV):
     from sa.feval import BlockOutcome, Obj
     from .c03 import package_evaluator, read_units
     bad = []
-    for wname, code, names, varnames, freevars, cellvars, consts in WV:
+    for wname, code, names, varnames, freevars, cellvars, consts, *fn_spec in WV:
+        fn_spec = fn_spec[0] if fn_spec else None  # (docstring, parameter names) of a function scope: both count as met first
         ev, R = package_evaluator(an, g.module, V)
         om, scale = R["opmap"], R["jump_scale"]
         insns = read_units(code, R)
@@ -987,6 +993,10 @@ def _decode_bad(an, g, V, WV):
                 targets.add(opoff + 2 + scale * arg)
         order = sorted(targets)
         ranks = {"n": {}, "v": {}, "c": {}, "k": {}}
+        if fn_spec:
+            ranks["v"] = {i_: i_ for i_ in range(len(fn_spec[1]))}
+            if fn_spec[0] is not None:
+                ranks["k"] = {0: 0}
 
         def pin(kind, i):
             r = ranks[kind].setdefault(i, len(ranks[kind]))
@@ -1017,7 +1027,12 @@ def _decode_bad(an, g, V, WV):
                 lines[o] = line_of[first]
         try:
             mp = ev.lib["LineMapping"](dict(lines), {})
-            res = ev.call_method(g.node, code, mp, tuple(names), tuple(varnames), tuple(freevars), tuple(cellvars), tuple(consts), None, ev.lib["Args"]())
+            if fn_spec:
+                args_ = ev.lib["Args"](positional_or_keyword=tuple(fn_spec[1]))
+                btype_ = ev.lib["Function"](args_, fn_spec[0], None)
+            else:
+                args_, btype_ = ev.lib["Args"](), None
+            res = ev.call_method(g.node, code, mp, tuple(names), tuple(varnames), tuple(freevars), tuple(cellvars), tuple(consts), btype_, args_)
         except BlockOutcome as o:
             bad.append(f"{wname}: the decoder stops at `{norm_src(o.node)[:60]}`")
             continue
